@@ -122,7 +122,7 @@ func (o *ou1) eval(fn *ssa.Function, binds map[*ssa.Parameter]tri) *ou1Summary {
 				var dfn *ssa.Function
 				if mc, ok := resolve(df.Call.Value).(*ssa.MakeClosure); ok {
 					dfn, _ = mc.Fn.(*ssa.Function)
-				} else if cal := df.Call.StaticCallee(); cal != nil && c.InModule(cal) && cal.Blocks != nil {
+				} else if cal := calleeOf(&df.Call); cal != nil && c.InModule(cal) && cal.Blocks != nil {
 					dfn = cal
 				}
 				if dfn != nil {
@@ -147,7 +147,7 @@ func (o *ou1) eval(fn *ssa.Function, binds map[*ssa.Parameter]tri) *ou1Summary {
 			}
 			cc := call.Common()
 			name := calleeFullName(cc)
-			cal := cc.StaticCallee()
+			cal := calleeOf(cc)
 			switch {
 			case strings.HasPrefix(name, "fmt.Print"):
 				s.texts = append(s.texts, ou1Site{fn, call, name})
@@ -172,7 +172,7 @@ func (o *ou1) eval(fn *ssa.Function, binds map[*ssa.Parameter]tri) *ou1Summary {
 				s.jsonSites = append(s.jsonSites, ou1Site{fn, call, name})
 				wMin[b.Index]++
 				wMax[b.Index]++
-			case cal != nil && cal == c.F.LockPrim:
+			case cal != nil && c.F.isLockFn(cal):
 				for _, ls := range c.F.LockSites {
 					if ls.Call == call && ls.Callback != nil {
 						sub := o.eval(ls.Callback, binds)
@@ -382,7 +382,7 @@ func (c *Ctx) definitelyFails(fn *ssa.Function, r *ssa.Return) bool {
 		if n == "errors.New" || n == "fmt.Errorf" || strings.HasSuffix(n, ".GoError") || strings.HasSuffix(n, "prunedErr") {
 			continue
 		}
-		if h := cl.Call.StaticCallee(); h != nil && c.InModule(h) && alwaysFails(h, 0) {
+		if h := calleeOf(&cl.Call); h != nil && c.InModule(h) && alwaysFails(h, 0) {
 			continue
 		}
 		if mustPassEdges(fn, r.Block(), nonNilErrEdges(fn, cl)) {
@@ -421,7 +421,7 @@ func ruleOU1(c *Ctx) {
 		// name the command by the internal/ergo entry it calls, for stable keys
 		name := c.Name(root)
 		for _, call := range callsIn(root) {
-			if cal := call.Common().StaticCallee(); cal != nil && (cal.Pkg == c.Ergo || cal.Pkg == c.Main) && c.InModule(cal) {
+			if cal := calleeOf(call.Common()); cal != nil && (cal.Pkg == c.Ergo || cal.Pkg == c.Main) && c.InModule(cal) {
 				name = c.Name(cal)
 			}
 		}
